@@ -32,6 +32,9 @@ structure Conn where
   active : List Nat        -- server side: streams of the transport that are not finished/reset
   cliActive : Nat          -- client side: open streams (counted against MAX_CONCURRENT_STREAMS)
   cliWaiting : List Nat    -- client side: RPCs waiting for stream quota
+  raw : Bool := false      -- the peer is not a grpc-go client: it ignores GOAWAY (or its frames cross it)
+  draining : Bool := false -- server side: the FINAL GOAWAY of GracefulStop was written (state draining):
+                           -- HEADERS read from now on are ignored (operateHeaders: `t.state != reachable`)
 deriving DecidableEq, Repr
 
 structure Rpc where
@@ -102,6 +105,10 @@ def pump : Nat → St → Nat → St
         match conn.fifo with
         | [] => s
         | .arrive r :: rest =>
+          if conn.draining then
+            -- arrived after the final GOAWAY: no stream is created, no handler runs
+            pump fuel (updConn s c fun x => { x with fifo := rest }) c
+          else
           let s := updConn s c fun x => { x with fifo := rest, active := x.active ++ [r] }
           if (runningOn s c).length < s.cap then pump fuel (enter s c r) c
           else updConn s c fun x => { x with blocked := some r }
@@ -156,7 +163,23 @@ def settleStop (s : St) : St :=
 def dial (s : St) (c : Nat) : St :=
   if (getConn s c).isSome then s else
   let up := s.phase = .serving
-  { s with conns := s.conns ++ [⟨c, up, up, [], none, [], 0, []⟩] }
+  { s with conns := s.conns ++ [⟨c, up, up, [], none, [], 0, [], false, !up⟩] }
+
+/-- a raw HTTP/2 peer connects (after a stop call the listener is closed: the connection is dead) -/
+def rawdial (s : St) (c : Nat) : St :=
+  if (getConn s c).isSome then s else
+  let up := s.phase = .serving
+  { s with conns := s.conns ++ [⟨c, false, up, [], none, [], 0, [], true, !up⟩] }
+
+/-- the raw peer opens a stream whatever the server announced: HEADERS go out unless the connection is gone -/
+def rawstart (s : St) (c r : Nat) : St :=
+  match getConn s c with
+  | none => s
+  | some conn =>
+    if (getRpc s r).isSome ∨ !conn.raw then s else
+    let s := { s with rpcs := s.rpcs ++ [⟨r, c, false, none, false, false, false, s.phase = .serving⟩] }
+    if !conn.srvAlive then updRpc s r fun x => { x with cli := some codeUnavailable }
+    else settleStop (send s c r)
 
 def start (s : St) (c r : Nat) : St :=
   match getConn s c with
@@ -203,7 +226,7 @@ def failWaiters (s : St) : St :=
 
 def gstop (s : St) : St :=
   if s.phase ≠ .serving then s else
-  let s := { s with phase := .graceful, conns := s.conns.map fun (x : Conn) => { x with usable := false } }
+  let s := { s with phase := .graceful, conns := s.conns.map fun (x : Conn) => { x with usable := false, draining := true } }
   settleStop (failWaiters s)
 
 def stop (s : St) : St :=
@@ -222,6 +245,7 @@ def stop (s : St) : St :=
 
 inductive Op
   | dial (c : Nat) | start (c r : Nat) | cancel (r : Nat) | finish (r code : Nat) | gstop | stop
+  | rawdial (c : Nat) | rawstart (c r : Nat)
 deriving DecidableEq, Repr
 
 def apply (s : St) : Op → St
@@ -231,6 +255,8 @@ def apply (s : St) : Op → St
   | .finish r code => finish s r code
   | .gstop => gstop s
   | .stop => stop s
+  | .rawdial c => rawdial s c
+  | .rawstart c r => rawstart s c r
 
 def runOps (s : St) (ops : List Op) : St := ops.foldl apply s
 
